@@ -64,7 +64,15 @@ fn run(c0: &Case) -> Outcome {
             }
         }
     }
-    let tol = K * f32::EPSILON as f64 * peak;
+    // FFT types: single-precision transforms of 2N points (mixed radix / Bluestein for awkward sizes) lose
+    // accuracy roughly with sqrt(N): calibrated 14 eps at N <= 1024, 41 at <= 4096, 65 at ~4800
+    let k_allowed = if kind.is_fft() {
+        let (fi, fo) = cfg.fft_blocks();
+        K.max(3.0 * (fi.max(fo) as f64).sqrt())
+    } else {
+        K
+    };
+    let tol = k_allowed * f32::EPSILON as f64 * peak;
     let mut frames = 0u64;
     let mut worst = 0.0f64;
     for (a, b) in t32.steps.iter().zip(&t64.steps) {
@@ -96,13 +104,19 @@ fn run(c0: &Case) -> Outcome {
                     if !(d <= tol) {
                         o.fail(
                             format!("outputs-differ:{}", kind.name()),
-                            format!("op {} channel {} frame {}: f32 {:e} vs f64 {:e}, |diff| = {:.1} eps_f32 * peak (allowed {}); table size {}", a.op, ch, i, u, v, rel, K, table),
+                            format!("op {} channel {} frame {}: f32 {:e} vs f64 {:e}, |diff| = {:.1} eps_f32 * peak (allowed {:.0}); table size {}", a.op, ch, i, u, v, rel, k_allowed, table),
                         );
                         return o;
                     }
                 }
             }
         }
+    }
+    if kind.is_fft() {
+        let (fi, fo) = cfg.fft_blocks();
+        let n = fi.max(fo);
+        let b = if n <= 256 { "<=256" } else if n <= 1024 { "<=1024" } else if n <= 4096 { "<=4096" } else { ">4096" };
+        o.maxi(&format!("worst_eps:fft:block{}", b), worst);
     }
     o.maxi(&format!("worst_eps:{}", if kind.is_sinc() { "sinc" } else if kind.is_fft() { "fft" } else { "fast" }), worst);
     o.count("frames_compared", frames);
@@ -117,7 +131,7 @@ impl Property for C17 {
         "C17"
     }
     fn rule(&self) -> String {
-        "cases = configuration (all seven types; sinc tables up to 512 x 2048 points), f32-representable input (tones + 20 % noise), history of documented operations executed on the f32 and on the f64 instantiation; all getters, returned counts and frames written must be equal and every output sample within 64 eps_f32 x peak. non-trivial = at least one processing call and (fixed-output or FFT type, whose counts depend on arithmetic, or >= 2000 compared frames). distinct = distinct case JSON digest.".into()
+        "cases = configuration (all seven types; sinc tables up to 512 x 2048 points), f32-representable input (tones + 20 % noise), history of documented operations executed on the f32 and on the f64 instantiation; all getters, returned counts and frames written must be equal and every output sample within 64 eps_f32 x peak (FFT types: max(64, 3 sqrt(block size)) eps_f32 x peak). non-trivial = at least one processing call and (fixed-output or FFT type, whose counts depend on arithmetic, or >= 2000 compared frames). distinct = distinct case JSON digest.".into()
     }
     fn assumptions(&self) -> Vec<String> {
         vec!["inputs are rounded to f32 so both instantiations see the same samples".into(), "histories stay in the benign envelope (DESIGN §6)".into()]
